@@ -12,7 +12,7 @@ from __future__ import annotations
 import itertools
 import threading
 
-from lib import e5ref, stuck, vtime
+from lib import e5ref, stuck, vtime, wire
 
 PROPERTY = "C11"
 LEVEL = "exploration"
@@ -34,7 +34,7 @@ SHARDS = {"quick": 8, "thorough": 16}
 TIMEOUT = {"quick": 400, "thorough": 3400}
 FLOORS = {"transition.3": 10, "transition.4": 5, "transition.5": 10, "transition.6": 10, "transition.8": 5, "transition.9": 5,
           "transition.10": 10, "transition.11": 10, "transition.12": 3, "oracle.ack_codes": 100, "oracle.events_checked": 50,
-          "oracle.sv1002": 50}
+          "oracle.sv1002": 50, "oracle.requests_during_attempt_online": 5}
 
 EO, AO, HO, OL, OR = "EQUIPMENT_OFFLINE", "ATTEMPT_ONLINE", "HOST_OFFLINE", "ONLINE_LOCAL", "ONLINE_REMOTE"
 CODE = {EO: 1, AO: 2, HO: 3, OL: 4, OR: 5}
@@ -285,6 +285,77 @@ class Run:
             self.sync("S1F17-no-transition")
             self.expect_events([], "S1F17-no-transition")
 
+    def ev_requests_during_attempt(self):
+        """The operator switches on-line; while the equipment's S1F1 is still outstanding (ATTEMPT ON-LINE) the host sends
+        S1F17 and asks for the control-state variable; then the peer answers the S1F1 the configured way."""
+        from lib.gemrig import ACK_BODIES
+
+        cur = next(iter(self.state))
+        if cur != EO or self.cfg["probe_answer"] == "none":
+            return
+        self.hist.append("operator switch_online; host S1F17 + S1F3[1002] while the S1F1 is outstanding")
+        held = []
+        old = self.rig.auto_policy.get((1, 1))
+        self.rig.auto_policy[(1, 1)] = lambda f: (held.append(f), None)[1]
+        done = threading.Event()
+        box = {}
+
+        @stuck.harness_thread
+        def run():
+            try:
+                self.h.control_switch_online()
+                box["r"] = "ok"
+            except Exception as exc:
+                box["r"] = f"raised:{type(exc).__name__}"
+            done.set()
+        th = threading.Thread(target=run, daemon=True)
+        th.start()
+        try:
+            self.rig.wait(lambda: bool(held), 3.0)
+            if held and self.real == AO:
+                self.ctx.count("oracle.requests_during_attempt_online")
+                fr = self.request(1, 17, b"")
+                if fr is not None and ((fr.stream, fr.function) != (1, 18) or fr.body != b"\x21\x01\x01"):
+                    self.violation("S1F17-ONLACK-differs:state-ATTEMPT_ONLINE:want-1", reply=fr.describe())
+                if not self.bad:
+                    fr = self.request(1, 3, e5ref.encode(("L", [("U2", [1002])])))
+                    want = e5ref.encode(("L", [("B", bytes([CODE[AO]]))]))
+                    if fr is not None and (fr.stream, fr.function) != (1, 0) and ((fr.stream, fr.function) != (1, 4) or fr.body != want):
+                        self.violation("control-state-SV-differs-from-current-state", reply=fr.describe(), want=want, state=AO)
+        finally:
+            if old is None:
+                self.rig.auto_policy.pop((1, 1), None)
+            else:
+                self.rig.auto_policy[(1, 1)] = old
+            for f in held:
+                if self.cfg["probe_answer"] == "s1f2":
+                    self.rig.pipe.feed(wire.hsms_data(1, 2, False, f.system, ACK_BODIES[(1, 1)]("equipment")))
+                else:
+                    self.rig.pipe.feed(wire.hsms_data(1, 0, False, f.system, b""))
+        if not done.wait(8.0):
+            if stuck.blocked_forever([th], watch=0.6):
+                self.violation("operator-call-blocked-forever:switch_online", stacks=stuck.stacks(8))
+            else:
+                self.ctx.unsure("operator call switch_online did not return within 8 s")
+                self.bad = True
+            return
+        if self.bad:
+            return
+        self.ctx.count("transition.3")
+        self.transitions += 1
+        if box.get("r") != "ok":
+            self.violation(f"E30-transition-3-refused:switch_online:{box.get('r')}", state_before=cur)
+            return
+        if self.cfg["probe_answer"] == "s1f2":
+            self.state = self.online_entry()
+            self.ctx.count("transition.5")
+        else:
+            self.state = {HO, EO}
+            self.ctx.count("transition.4")
+        self.sync("operator-switch_online-with-requests-during-the-attempt")
+        want_events = [2 if self.real == OL else 3] if (not self.bad and self.real in (OL, OR)) else []
+        self.expect_events(want_events, "transition-3")
+
     def ev_sv(self):
         self.hist.append("host S1F3[1002]")
         fr = self.request(1, 3, e5ref.encode(("L", [("U2", [1002])])))
@@ -315,6 +386,8 @@ def _history(ctx, cfg, length, idx):
                     OR: ["switch_offline", "switch_online_local"]}.get(cur, [])
             allops = ["switch_online", "switch_offline", "switch_online_local", "switch_online_remote"]
             run.ev_operator(rng.choice(good) if good and rng.random() < 0.7 else rng.choice(allops))
+        elif r < 0.56 and cur == EO:
+            run.ev_requests_during_attempt()
         elif r < 0.68:
             run.ev_s1f15()
         elif r < 0.88:
